@@ -87,4 +87,14 @@ CLAIMS = {
         "note": TRUST,
         "technique": "MIR dominance / must-pass-through / guard rules, who-may-call and who-may-construct inventories",
     },
+    "C02": {
+        "text": "Partial and modest, structural: decides only the path-shaped clause 'in the database as it stood when the iteration began': in Database::run_rule_set every search/apply step (run_plan / run_join_stages in both the serial and the scoped-parallel arm, the action-buffer flushes, the parallel scope) happens before the single merge_all and never after it, and from the join executor, the instruction interpreter and the action flushers no table-merging/clearing/rebuilding Database or Table operation is reachable in the resolved call graph (depth 8, dyn calls fanned out); the thorough tier adds a compile-fail witness that code holding only an ExecutionState cannot call Table::merge. Does NOT decide plan-independence (strategy, decomposition, stage order, constraint placement, indexes): no structural clause of the planner is a necessary condition I can state without re-implementing its invariants as a dynamic oracle.",
+        "note": TRUST + " External functions are opaque but only receive &mut ExecutionState.",
+        "technique": "must-precede rule on the CFG + call-graph unreachability + compile-fail witness",
+    },
+    "C06": {
+        "text": "Partial, structural (sibling cross-check): decides on MIR that each parallel table operation writes the same fields as its serial sibling (insert, delete, rehash pairs of SortedWritesTable), that both report a computed `changed`, that one dispatcher chooses between them, that every rebuild body staging an insert also stages the removal of the old key, and that the per-site obligations shared with other properties hold at every serial and parallel site alike: merge output stored and probe-before-insert (C05), re-stamping (C03), physical scan extent (R-SCAN-EXTENT), the three container-rebuild variants (C14); and that the size cut-offs of parallel_heuristics are only ever used as branch conditions (R-CUTOFF-PURE). Found F1 (parallel_insert dropped the merged row; fixed). Does NOT decide isomorphism of results across thread counts and schedules; the index-refresh and run_rule_set serial/scoped pairs are not cross-checked.",
+        "note": TRUST,
+        "technique": "sibling cross-check: field-write effect sets + shared per-site MIR rules on every serial/parallel variant",
+    },
 }
